@@ -102,6 +102,124 @@ func (e *Enc) Oblige(fn, kind, what string, goal Term, pos token.Position) *Obli
 	return o
 }
 
+// SlicedQuery renders the query without the quantified memory frames of heap arrays outside the goal's
+// definitional cone (path conditions are treated as opaque). Dropping hypotheses is sound: unsat still means valid.
+// ok=false if nothing could be dropped.
+func (o *Obligation) SlicedQuery(prelude string) (string, bool) {
+	lines := o.enc.lines[:o.At]
+	defs := map[string]string{}
+	for _, l := range lines {
+		if strings.HasPrefix(l, "(define-fun ") {
+			f := strings.SplitN(l, " ", 3)
+			if len(f) == 3 {
+				defs[f[1]] = f[2]
+			}
+		}
+	}
+	keys := map[string]bool{}
+	seen := map[string]bool{}
+	var walk func(text string)
+	walk = func(text string) {
+		for _, sym := range symbolsOf(text) {
+			if seen[sym] {
+				continue
+			}
+			seen[sym] = true
+			base := sym
+			if k := strings.LastIndex(sym, "!"); k > 0 {
+				base = sym[:k]
+			}
+			if strings.HasPrefix(base, "M.") || strings.HasPrefix(base, "H.") || base == "MS" {
+				keys[base] = true
+			}
+			if strings.HasPrefix(base, "reach") || strings.HasPrefix(base, "cond") || strings.HasPrefix(base, "exit") {
+				continue
+			}
+			if d, ok := defs[sym]; ok {
+				walk(d)
+			}
+		}
+	}
+	walk(o.Goal)
+	dropped := 0
+	var b strings.Builder
+	b.WriteString(prelude)
+	b.WriteString(o.preambleExtras())
+	for _, l := range lines {
+		if strings.HasPrefix(l, "(assert (forall ") {
+			rel := false
+			for _, sym := range symbolsOf(l) {
+				base := sym
+				if k := strings.LastIndex(sym, "!"); k > 0 {
+					base = sym[:k]
+				}
+				if keys[base] {
+					rel = true
+					break
+				}
+			}
+			if !rel {
+				dropped++
+				continue
+			}
+		}
+		b.WriteString(l)
+		b.WriteByte('\n')
+	}
+	if dropped == 0 {
+		return "", false
+	}
+	b.WriteString("(assert (not " + o.Goal + "))\n(check-sat)\n")
+	return b.String(), true
+}
+
+// symbolsOf lists the generated symbols (name!N) of a piece of SMT text.
+func symbolsOf(text string) []string {
+	var out []string
+	i := 0
+	for i < len(text) {
+		c := text[i]
+		if c == '(' || c == ')' || c == ' ' || c == '\n' {
+			i++
+			continue
+		}
+		j := i
+		for j < len(text) && text[j] != '(' && text[j] != ')' && text[j] != ' ' && text[j] != '\n' {
+			j++
+		}
+		tok := text[i:j]
+		if strings.Contains(tok, "!") {
+			out = append(out, tok)
+		}
+		i = j
+	}
+	return out
+}
+
+func (o *Obligation) preambleExtras() string {
+	var b strings.Builder
+	if len(o.enc.ghosts) > 0 {
+		var names []string
+		for n := range o.enc.ghosts {
+			names = append(names, n)
+		}
+		sort.Strings(names)
+		for _, n := range names {
+			b.WriteString("(declare-fun g!" + n + " (" + strings.TrimSpace(strings.Repeat("Int ", o.enc.ghosts[n])) + ") Int)\n")
+		}
+	}
+	if o.enc.usesRunEnd {
+		b.WriteString(RunEndAxioms)
+	}
+	if o.enc.usesCnt {
+		b.WriteString(CntAxioms)
+	}
+	if o.enc.usesDv {
+		b.WriteString(DvAxioms)
+	}
+	return b.String()
+}
+
 // Query renders the SMT-LIB script for one obligation.
 func (o *Obligation) Query(prelude string) string {
 	var b strings.Builder
